@@ -27,6 +27,7 @@ func main() {
 		{"unicode", genUnicode},
 		{"defaults", genDefaults},
 		{"handlers", genHandlers},
+		{"shipped", genShipped},
 	}
 	for _, g := range gens {
 		if *only == "" || *only == g.name {
